@@ -42,12 +42,13 @@ def mint_h(name, bounds, **kw):
     kw.setdefault('models', MINT_MODELS)
     return Harness(name, 'mint', MINT_FILES, bounds=bounds, **kw)
 
+STORAGE_LISTS = Harness('VHarnessStorageLists', 'mint/storage/sqlite', ['mint/storage/sqlite/zz_verif_db.go'], models=('std', 'crypto', 'json', 'sql'), summaries=('h2c',), crypto_mode='euf', bounds='GetProofsUsed / GetPendingProofs / GetBlindSignatures with a list of 1, 2 or 1001 distinct keys over 1+1+1 arbitrary rows (the stored key may equal any position of the list)', must_reach=('looked-up', 'long-list'))
 RACE_MELT_MELT = mint_h('VHarnessRaceMeltMelt', '2 concurrent melts (different quotes) of the same genuine proof, schedule symbolic at storage / Lightning call granularity, <= 2 pre-emptions, backend answers scripted symbolically', sched=True, must_reach=('joined', 'one-honoured'))
 def c01(tier):
     return [
         mint_h('VHarnessRaceSwapSwap', '2 concurrent swaps of the same genuine proof, schedule symbolic at storage-call granularity, <= 2 pre-emptions', sched=True, must_reach=('joined', 'one-honoured')),
         mint_h('VHarnessRaceSwapMelt', 'swap and melt of the same genuine proof concurrently, schedule symbolic, <= 2 pre-emptions', sched=True, must_reach=('joined', 'one-honoured')),
-        RACE_MELT_MELT,mint_h('VHarnessSwapC01', 'swap: <= 2 inputs, <= 1 output, every field free; 2 proofs + 1 pending + 1 blind_signatures arbitrary rows',
+        RACE_MELT_MELT, STORAGE_LISTS,mint_h('VHarnessSwapC01', 'swap: <= 2 inputs, <= 1 output, every field free; 2 proofs + 1 pending + 1 blind_signatures arbitrary rows',
                    must_reach=('swap-accepted', 'swap-rejected')),
         mint_h('VHarnessMeltC05', 'melt + 1 poll with a scripted backend (<= 3 answers): the inputs of a melt whose payment may still settle stay locked - released only after a definitive failure (else they could be spent a second time)', must_reach=('poll-1',))]
 
@@ -164,6 +165,7 @@ def c19(tier):
             w_h('VHarnessWalletCrashRestoreReceive', 'holding one deterministic proof of 8 (ppk 100): receive of a foreign token of 4 killed before any one of its storage or HTTP calls (position symbolic) or not at all; then restore from the mnemonic into an empty store', sched=True, must_reach=('struck', 'not-struck', 'restored-after-crash'), summaries=('h2c', 'dleq', 'padd-inj'), timeout_s=1800),
             w_h('VHarnessWalletCrashRestoreMint', 'holding one deterministic proof of 8 (ppk 100): mint of a paid quote of 3 killed before any one of its storage or HTTP calls (position symbolic) or not at all; then restore from the mnemonic into an empty store', sched=True, must_reach=('struck', 'not-struck', 'restored-after-crash'), summaries=('h2c', 'dleq', 'padd-inj'), timeout_s=1800)] if tier == 'thorough' else []
     return more + [w_h('VHarnessWalletCrashRestore', 'holding one deterministic proof of 8 (ppk 100): send 1..2 (fees included, through a swap) killed before any one of its storage or HTTP calls (position symbolic) or not at all; then restore from the mnemonic into an empty store; both keysets scanned', sched=True, must_reach=('struck', 'not-struck', 'restored-after-crash'), summaries=('h2c', 'dleq', 'padd-inj'), timeout_s=1800),
+            w_h('VHarnessRestoreContinue', 'restore (one signed output) from the mnemonic, then the restored store opened as LoadWallet does (loadWalletMints + getActiveKeyset) against a mint with ppk in {0,100,1000}: the counter stays past the signed outputs', must_reach=('continued',), summaries=('h2c', 'dleq', 'padd-inj'), timeout_s=1800),
             w_h('VHarnessWalletReceive', 'receive a token of the own mint: 1..2 proofs of 2^0..2^3, ppk in {0,100,1000}, stored counter symbolic < 2^30', must_reach=('received', 'receive-failed')),
             w_h('VHarnessWalletMint', 'mint tokens: stored counter symbolic (< 2^30), quote amount 1..11, mint signs or refuses', must_reach=('minted', 'mint-failed')),
             w_h('VHarnessWalletMintThenSend', 'holding one deterministic proof of 8: send 1..5 through a swap, fees included or not, ppk in {0,100,1000}', must_reach=('sent',)),
